@@ -327,3 +327,14 @@ Example default_float_instance :
   | _ => False
   end.
 Proof. vm_compute. reflexivity. Qed.
+
+(* the simpler guard holds for the parsed example list; the container export hypotheses hold for a plain container *)
+Example ex_symbols_small : sym_small ex_symbols = true.
+Proof. vm_compute. reflexivity. Qed.
+
+Example ex_container_hyps :
+  pd_index ex_span = Some (mkIndex KRange PInt64 [CInt 2000; CInt 2001; CInt 2002]) /\
+  forall k s, In (k, s) [("status", ex_S); ("X", ex_X); ("B", ex_B)] -> length (scells s) = length (splabels ex_span).
+Proof.
+  split; [reflexivity|]. intros k s [H|[H|[H|[]]]]; inversion H; subst; reflexivity.
+Qed.
